@@ -7,7 +7,7 @@ from ..selftest import Mutant
 
 ID = "C51"
 TECHNIQUE = "writer/reader template and separator agreement (K6) for the rebase plan file and the state file names (ast)"
-FLOOR = 8
+FLOOR = 12
 RB = "breezy/plugins/rewrite/rebase.py"
 EXPLANATION = """
 K6, persistence only: marshall_rebase_plan and unmarshall_rebase_plan agree on (a) the header template (same bytes
